@@ -181,6 +181,6 @@ func TestVerifMicroClientStream(t *testing.T) {
 }
 
 func TestVerifMicroClientCallOutlier(t *testing.T) {
-	vRunDriver(t, vDriver{Name: "micro.clientWrapper.Call(outlier)", DefaultRes: "verif.svc", HasFallback: true, CanPanic: true,
+	vRunDriver(t, vDriver{Name: "micro.clientWrapper.Call(outlier)", OwnChain: true, DefaultRes: "verif.svc", HasFallback: true, CanPanic: true,
 		Run: clientRun(false, true), Instance: clientInstance(false, true), Rejected: rejected})
 }
